@@ -140,3 +140,37 @@ def late_bounce_mixed_remainder():
 
 
 REPLAYS["late-bounce-mixed-remainder"] = late_bounce_mixed_remainder
+
+
+def queuearc_late_pull():
+    """a junction draws from one store over a plain arc and from another over a QueueArc with one timestep of travel time:
+    what it asks of the second store today arrives tomorrow, on top of whatever it asks for then - the junction hands on more
+    than it was asked for, and the plain arc in front of it books more than its capacity"""
+    import contextlib
+    import io
+    from wsimod.arcs.arcs import Arc, QueueArc
+    from wsimod.core import constants
+    from wsimod.nodes.nodes import Node
+    from wsimod.nodes.storage import Reservoir
+    constants.set_simple_pollutants()
+    try:
+        with contextlib.redirect_stdout(io.StringIO()):
+            near = Reservoir(name="near", capacity=100, area=1, initial_storage=2.0)
+            far = Reservoir(name="far", capacity=100, area=1, initial_storage=100.0)
+            j = Node(name="j")
+            user = Node(name="user")
+            p = Arc(name="p", in_port=near, out_port=j)
+            q = QueueArc(name="q", in_port=far, out_port=j, number_of_timesteps=1)
+            a = Arc(name="a", in_port=j, out_port=user, capacity=10)
+            got1 = a.send_pull_request({"volume": 10.0})["volume"]
+            for x in (p, q, a, near, far):
+                x.end_timestep()
+            near.tank.storage["volume"] = 6.0          # (the near store has been topped up)
+            got2 = a.send_pull_request({"volume": 10.0})["volume"]
+        return a.flow_in > a.capacity + 1e-9 and got2 > 10.0 + 1e-9, (f"day 1: asked 10, got {got1:.4g} (the rest is under way in the QueueArc); day 2: asked 10 over an arc of "
+                                                                     f"capacity 10, got {got2:.4g}, the arc books {a.flow_in:.4g}")
+    finally:
+        constants.set_default_pollutants()
+
+
+REPLAYS["queuearc-late-pull"] = queuearc_late_pull
